@@ -13,7 +13,7 @@ RULE = ('shot space: drag model {G7,G1,RA4,custom 3-node,multi-BC} x BC {.223,.0
         'zero {5 MOA,0,3 deg} x relative {0,1 deg} x cant {0,30,90} x atmosphere {ICAO, ICAO 5000 ft, hot/humid, vacuum} x winds {none,cross,head,tail,3 segments out of '
         'order,60 mph quartering,calm then wind,wind-calm-wind} x range {300 yd, 800 yd}; cells = all with <= k deviations from the baseline (quick k=1 plus the interacting pairs cant x relative/zero/look/sight, mv x wind, atmosphere x look/wind, look x wind, drag model x mv; thorough k=2) + 7 everything-on cells; '
         'each cell runs the solver on the ladder h = 0.5,0.25,0.125,0.0625 ft and compares 4 rows x 4 columns on every rung with the reference; '
-        'non-trivial = precondition held (no range error, x strictly increasing) and the reference was sharper than the bound')
+        'reuse cells = for each input dimension, its values assigned in place one after the other to the objects of one shot fired with one long-used calculator, each compared bitwise with a fresh calculator on freshly built objects; non-trivial = precondition held (no range error, x strictly increasing) and the reference was sharper than the bound')
 ASSUMPTIONS = ['wind segment switches may lag by one integration step: floor includes (sensitivity of the reference to the switch position) x one step', 'oracle: e_h <= 4 Delta*_h + floor with the ladder-wide first-order scale Delta* (DESIGN C01); floor = 1e-7 ft / 1e-6 fps / 1e-10 s + reference error + 2 % of the largest halving change',
                'Atmo.get_density_factor_and_mach_for_altitude and TrajectoryCalc.drag_by_mach are used as black-box coefficient functions (their own correctness is C08/C09)',
                'convergence is checked on a 4-rung ladder, not in the limit', 'spin drift excluded (twist 0); it is C05']
@@ -116,7 +116,63 @@ def ladder(cell):
     return {'v': out, 'n': len(rungs) + 2, 'nt': cell, 'obs': [spec['atmo'] == 'vac', worst > 2.0], 'extra': {'max_err_over_scale': worst}}
 
 
-PARTS = {'ladder': ladder}
+def reuse(cell):
+    """"for every shot" includes a shot whose inputs were edited in place and that is fired again with a long-used calculator: every value of one
+    input dimension is assigned in turn to the SAME shot / weapon / ammunition / drag-model objects and fired with the same calculator; each
+    result must equal, bit for bit, that of a fresh calculator on objects built from the edited values (which the ladder part ties to the ODE)"""
+    import py_ballisticcalc as pb
+    from mc.world import make_dm, make_atmo, make_winds, traj_bits
+    U = pb.Unit
+    dim, h = cell
+    cfg = {'max_calc_step_size_feet': h}
+    calc = make_calc(cfg)
+    spec = dict(BASE)
+    spec['twist'] = 0.0
+    shot = make_shot(spec)
+    R = 900.0
+    calc.fire(shot, U.Foot(R), U.Foot(R / 4))
+    out = []
+    n = 0
+    base_v = BASE[dim] if dim != 'R' else None
+    for v in list(DIMS[dim]) + [base_v] + list(DIMS[dim])[:1]:
+        spec[dim] = v
+        if dim == 'bc' and hasattr(shot.ammo.dm, 'BC'):
+            shot.ammo.dm.BC = v
+        elif dim == 'dm':
+            shot.ammo.dm = make_dm(spec)
+        elif dim == 'mv':
+            shot.ammo.mv = U.FPS(v)
+        elif dim == 'sh':
+            shot.weapon.sight_height = U.Inch(v)
+        elif dim == 'zero':
+            shot.weapon.zero_elevation = U.Degree(v)
+        elif dim == 'look':
+            shot.look_angle = U.Degree(v)
+        elif dim == 'rel':
+            shot.relative_angle = U.Degree(v)
+        elif dim == 'cant':
+            shot.cant_angle = U.Degree(v)
+        elif dim == 'atmo':
+            shot.atmo = make_atmo(v)
+        elif dim == 'wind':
+            shot.winds = make_winds(v)
+        n += 1
+
+        def fire(c, s_):
+            try:
+                return ['ok', traj_bits(c.fire(s_, U.Foot(R), U.Foot(R / 4)).trajectory)]
+            except pb.RangeError as e:
+                return ['RangeError', e.reason, traj_bits(e.incomplete_trajectory)]
+        got = fire(calc, shot)
+        exp = fire(make_calc(cfg), make_shot(spec))
+        if got != exp:
+            out.append({'msg': f'long-used calculator, {dim} changed in place to {v!r} on the same objects: the trajectory differs from a fresh calculator on a shot built '
+                               f'with {dim}={v!r} (an input of the equations of motion is stale)', 'key': None})
+            break
+    return {'v': out, 'n': n, 'nt': cell}
+
+
+PARTS = {'ladder': ladder, 'reuse': reuse}
 
 
 def deviations(k):
@@ -141,4 +197,5 @@ def plan(tier):
     cells += [dict(c) for c in EVERYTHING]
     if tier == 'thorough':
         cells += [dict(c, rungs=[1.0, 0.5, 0.25, 0.125, 0.0625, 0.03125]) for c in deviations(1)[:12]]
-    return [('ladder', cells)]
+    ru = [[d, h] for d in DIMS if d != 'R' for h in (0.5, 0.25)]
+    return [('ladder', cells), ('reuse', ru)]
